@@ -214,7 +214,7 @@ def has_sqlx(case):
 class C11(Property):
     id = "C11"
     title = "Periodic/bulk/chunk executors run every added task exactly once"
-    quick_cases = 480
+    quick_cases = 600
     thorough_cases = 4000
     design_ref = "DESIGN.md §6/C11, §5/F6"
     level_text = ("Unbounded Rocq theorems over an interleaving model (LTS) of PeriodicalExecutor with the bulk/chunk "
@@ -363,6 +363,13 @@ class C11(Property):
                            ["reject", 0, 1, 3, 0], ["add", 0, 0, 6, 1], ["add", 0, 0, 7, 1], ["flush", 0, 1, 1], ["rel", 0, 0],
                            # rows flushed while the second statement (with a suffix) is the current one
                            ["add", 0, 0, 8, 1], ["add", 0, 1, 9, 1], ["flush", 0, 0, 2], ["rel", 0, 0]]})
+        # a BulkInserter and a BulkExecutor side by side: one proc.Shutdown() flushes both, shared clock
+        cs.append({"insts": [{"kind": "sqlx", "maxw": n, "interval": iv, "nclients": 2},
+                             {"kind": "bulk", "maxw": 2, "interval": 1000, "nclients": 2}],
+                   "bad": [], "gateq": False, "gates": False, "scribble": True, "drain": True,
+                   "ops": [["addn", 0, 0, 1, 20], ["add", 1, 0, 5001, 1], ["shutdown"], ["add", 0, 1, 21, 1], ["add", 1, 1, 5002, 1],
+                           ["rel", 0, 0], ["add", 1, 0, 5003, 1], ["rel", 1, 0], ["relall"], ["clock", 10001], ["tick", 1], ["tick", 1],
+                           ["tick", 0], ["add", 1, 0, 5004, 1], ["clock", idle], ["tick", 0], ["tick", 0], ["add", 0, 0, 22, 1]]})
         for c in cs:
             c["drain"] = True
         return cs
